@@ -66,7 +66,8 @@ GotSet(f) == LET js == {j \in l..(Trace[l].nr - 1) : Trace[j].ev = "got"}
 NewSeen(f) == \A k \in (Len(log[f]) + 1)..Len(log'[f]) : log'[f][k] \in GotSet(f)
 (* the same for the plain variants, whose published change depends on which peer changes were applied before: only
    when the execution has reports at all *)
-HasGot == \E j \in l..(Trace[l].nr - 1) : Trace[j].ev = "got"
+HasGot == /\ \E j \in l..(Trace[l].nr - 1) : Trace[j].ev = "got"
+          /\ ~\E j \in l..(Trace[l].nr - 1) : Trace[j].ev = "timeout"    \* (stuck subscriptions: a change may reach nobody)
 PlainSeen(f) == HasGot => NewSeen(f)
 TPut == /\ IsEvent("put") /\ Strict /\ Ev.res = "ok"
         /\ \/ APut(Ev.f, Ev.p, Ev.id) /\ UNCHANGED <<applied, half>> /\ PlainSeen(Ev.f)
